@@ -11,8 +11,9 @@ COQ_IMPORTS = "From CV Require Import Gen.NetTables Model.Net."
 COQ_RUN = "run_net"
 COQ_CASE_TYPE = "net_case"
 RULE = ("cases = operation histories (subscribe / unsubscribe one / unsubscribe all / add or replace a node object / "
-        "remove a node / notify / listener frame incl. error+remote+extended / scanner reset) over a pool of ~12 CAN ids "
-        "(node COB-IDs of 2-3 node ids in 1..127, 0, the LSS id, arbitrary 11- and 29-bit ids), 4 user callbacks and "
+        "remove a node / add_sdo on a node object (registered or not; new, shared and colliding tx ids) / notify / "
+        "listener frame incl. error+remote+extended / scanner reset) over a pool of ~14 CAN ids "
+        "(node COB-IDs of 2-3 node ids in 1..127, extra SDO tx ids, 0, the LSS id, arbitrary 11- and 29-bit ids), 4 user callbacks and "
         "4-6 node objects (local and remote mixed, several objects per node id), 'clean' histories and 'dirty' ones that "
         "tamper with node subscriptions; compared step by step (delivery log of every callback, exception kind) plus the "
         "final subscribers / nodes / scanner state; scanner id lists (all 2048 11-bit ids, 29-bit ids, ids around every "
@@ -27,11 +28,26 @@ TRUSTED = ["modelled, not verified: python-can can.Message construction (a remot
            "Python dict insertion order and list.remove / in semantics (modelled as association lists, tied by correspondence)",
            "node callbacks are observed through logging wrappers installed as instance attributes before "
            "associate_network (so the library's own associate_network / remove_network code subscribes and unsubscribes them); "
-           "the wrapped originals (SdoClient.on_response, NmtMaster.on_heartbeat, ...) are not run"]
+           "the wrapped originals (SdoClient.on_response, NmtMaster.on_heartbeat, ...) are not run; the clients created by "
+           "add_sdo are observed through a class-level wrapper of SdoClient.on_response (add_sdo subscribes the bound method "
+           "before the harness can touch the new object)"]
 ASSUMPTIONS = ["callbacks are identities in the model; Python bound-method equality is not modelled",
                "callbacks do not raise and do not modify subscriptions while being invoked",
-               "one SDO channel per RemoteNode (add_sdo not modelled)",
                "timestamps are injected integers"]
+
+ANCHORS = [("canopen.network", "Network.__init__"), ("canopen.network", "Network.subscribe"),
+           ("canopen.network", "Network.unsubscribe"), ("canopen.network", "Network.notify"),
+           ("canopen.network", "Network.send_message"), ("canopen.network", "Network.send_periodic"),
+           ("canopen.network", "Network.add_node"), ("canopen.network", "Network.create_node"),
+           ("canopen.network", "Network.__setitem__"), ("canopen.network", "Network.__delitem__"),
+           ("canopen.network", "MessageListener.on_message_received"),
+           ("canopen.network", "NodeScanner.on_message_received"), ("canopen.network", "NodeScanner.reset"),
+           ("canopen.network", "NodeScanner.SERVICES"),
+           ("canopen.network", "PeriodicMessageTask.__init__"),
+           ("canopen.node.remote", "RemoteNode.__init__"), ("canopen.node.remote", "RemoteNode.associate_network"),
+           ("canopen.node.remote", "RemoteNode.remove_network"), ("canopen.node.remote", "RemoteNode.add_sdo"),
+           ("canopen.node.local", "LocalNode.associate_network"), ("canopen.node.local", "LocalNode.remove_network"),
+           ("canopen.node.base", "BaseNode.has_network")]
 
 logging.disable(logging.CRITICAL)
 
@@ -51,6 +67,18 @@ def _patch_lss():
         _LOG.append(([1], can_id, bytes(data), timestamp))
         return orig(self, can_id, data, timestamp)
     LssMaster.on_message_received = on_message_received
+
+    # clients created by RemoteNode.add_sdo: their bound on_response is subscribed inside add_sdo,
+    # so it is logged through the class (only for clients the harness has tagged)
+    from canopen.sdo import SdoClient
+    orig_resp = SdoClient.on_response
+
+    def on_response(self, can_id, data, timestamp):
+        hv = getattr(self, "_c10_hv", None)
+        if hv is None:
+            return orig_resp(self, can_id, data, timestamp)
+        _LOG.append((hv, can_id, bytes(data), timestamp))
+    SdoClient.on_response = on_response
     _PATCHED[0] = True
 
 
@@ -89,6 +117,7 @@ class World:
         self.net = canopen.Network()
         self.user = {}
         self.objs = {}
+        self.chan_order = []     # node objects in order of their first add_sdo
 
     def ucb(self, u):
         if u not in self.user:
@@ -127,6 +156,11 @@ class World:
         if k == 2: return n.emcy.on_emcy
         if k == 3: return n.nmt.on_command
         if k == 4: return n.sdo.on_request
+        if k == 5:
+            chans = getattr(n, "sdo_channels", [])
+            if 1 <= h[3] < len(chans):
+                return chans[h[3]].on_response
+            return _mkcb([9])           # a channel that was never created: subscribed nowhere
         raise ValueError(h)
 
     def hv_of(self, cb):
@@ -135,6 +169,9 @@ class World:
             return hv
         if getattr(cb, "__self__", None) is self.net.lss:
             return [1]
+        hv = getattr(getattr(cb, "__self__", None), "_c10_hv", None)
+        if hv is not None:
+            return hv
         return [9]
 
     def dump(self):
@@ -142,7 +179,9 @@ class World:
         subs = [[c, [self.hv_of(cb) for cb in l]] for c, l in net.subscribers.items()]
         nodes = [[nid] + [getattr(n, "_trip", (-1, -1, False))[0], getattr(n, "_trip", (-1, -1, False))[1],
                           bool(getattr(n, "_trip", (-1, -1, False))[2])] for nid, n in net.nodes.items()]
-        return [subs, nodes, list(net.scanner.nodes)]
+        chans = [[t[0], t[1], bool(t[2]), [cl.tx_cobid for cl in self.objs[t].sdo_channels[1:]]]
+                 for t in self.chan_order]
+        return [subs, nodes, list(net.scanner.nodes), chans]
 
     def do(self, op):
         import can
@@ -171,6 +210,13 @@ class World:
             net.listeners[0].on_message_received(msg)
         elif k == "reset":
             net.scanner.reset()
+        elif k == "add_sdo":
+            n = self.node(op[1])
+            client = n.add_sdo(op[2], op[3])          # AttributeError for a LocalNode
+            t = tuple(op[1])
+            client._c10_hv = [2, t[0], t[1], bool(t[2]), 5, len(n.sdo_channels) - 1]
+            if t not in self.chan_order:
+                self.chan_order.append(t)
         else:
             raise ValueError(op)
 
@@ -232,6 +278,7 @@ def _h(hv):
     """observed callback -> reference callback tuple"""
     if hv[0] == 0: return ("u", hv[1])
     if hv[0] == 1: return ("lss",)
+    if hv[0] == 2 and hv[4] == 5: return ("n", (hv[1], hv[2], bool(hv[3])), 5, hv[5])
     if hv[0] == 2: return ("n", (hv[1], hv[2], bool(hv[3])), hv[4])
     return ("?",)
 
@@ -239,6 +286,7 @@ def _h(hv):
 def _href(h):
     if h[0] == "u": return ("u", h[1])
     if h[0] == "lss": return ("lss",)
+    if h[2] == 5: return ("n", (h[1][0], h[1][1], bool(h[1][2])), 5, h[3])
     return ("n", (h[1][0], h[1][1], bool(h[1][2])), h[2])
 
 
@@ -304,6 +352,8 @@ def oracle_hist(c, o):
         elif k == "reset":
             ref.found = []
             must = True
+        elif k == "add_sdo":
+            must = ref.add_sdo((op[1][0], op[1][1], bool(op[1][2])), op[3])
         if must is True and got != []:
             return ("operation_failed" if isinstance(got, Err) else "spurious_delivery", f"step {i} {op}: {got!r}")
         if not isinstance(got, Err) and got != []:
@@ -374,6 +424,7 @@ GK = ("KSdoResp", "KHeartbeat", "KEmcy", "KNmt", "KSdoReq")
 def g_handler(h):
     if h[0] == "u": return f"(HUser {gz(h[1])})"
     if h[0] == "lss": return "HLss"
+    if h[2] == 5: return f"(HNode {g_obj(h[1])} (KSdoExtra {gz(h[3])}))"
     return f"(HNode {g_obj(h[1])} {GK[h[2]]})"
 
 
@@ -389,6 +440,7 @@ def g_op(op):
         # can.Message drops the payload of a remote frame; such a frame is not dispatched anyway
         return f"ORecv (Build_frame {gz(c)} {gzlist(data)} {gbool(remote)} {gbool(ext)} {gbool(err)} {gz(ts)})"
     if k == "reset": return "OScanReset"
+    if k == "add_sdo": return f"OAddSdo {g_obj(op[1])} {gz(op[2])} {gz(op[3])}"
     raise ValueError(op)
 
 
@@ -431,12 +483,16 @@ def gen_history(rng, nsteps, dirty):
         node_cobs += [0x80 + n, 0x580 + n, 0x600 + n, 0x700 + n]
     tpdo = [rng.choice((0x180, 0x280, 0x380, 0x480)) + rng.choice(nids + [rng.randrange(1, 128)]) for _ in range(2)]
     free = [0x7E4] + tpdo + rng.sample(ODD_IDS, 3)
-    ids = node_cobs + free
+    # response COB-IDs for additional SDO channels: a fresh one, one shared by several channels /
+    # objects, and one that collides with an id already in use (a node's own SDO tx id or a free id)
+    xtx = [0x5C0 + rng.choice(nids) % 0x40, 0x5FF, rng.choice(node_cobs[1:] + free)]
+    ids = node_cobs + free + xtx[:2]
     users = list(range(4))
     ops = []
     ts = 0
+    n_sdo = 0
     weights = [("sub", 20), ("unsub1", 11), ("unsuball", 3), ("add", 9), ("del", 5), ("notify", 40), ("recv", 9),
-               ("reset", 1), ("resub2", 2)]
+               ("reset", 1), ("resub2", 2), ("add_sdo", 3)]
     if dirty:
         weights += [("tamper", 3)]
     names = [w[0] for w in weights]
@@ -465,7 +521,19 @@ def gen_history(rng, nsteps, dirty):
             cob = {0: 0x580 + o[1], 1: 0x700 + o[1], 2: 0x80 + o[1], 3: 0, 4: 0x600 + o[1]}[kd]
             if rng.random() < 0.2:
                 cob = rng.choice(ids)
-            ops.append(["unsub", cob, ["n", o, kd]])
+            mine = [op for op in ops if op[0] == "add_sdo" and op[1] == o]
+            if mine and rng.random() < 0.4:       # one of its additional SDO channels
+                k2 = rng.randrange(1, len(mine) + 2)
+                ops.append(["unsub", mine[min(k2, len(mine)) - 1][3], ["n", o, 5, k2]])
+            else:
+                ops.append(["unsub", cob, ["n", o, kd]])
+        elif k == "add_sdo":
+            if n_sdo >= 8:
+                continue
+            n_sdo += 1
+            cand = [o for o in objs if not o[2]] or objs
+            o = rng.choice(cand if rng.random() < 0.95 else objs)
+            ops.append(["add_sdo", o, 0x640 + o[1] % 0x40, rng.choice(xtx)])
         elif k == "add":
             ops.append(["add", rng.choice(objs)])
         elif k == "del":
@@ -611,6 +679,7 @@ def neighbours(c, rng):
     if c["kind"] == "hist":
         ops = c["ops"]
         ids = sorted({op[1] for op in ops if op[0] in ("sub", "unsub", "notify", "recv")} |
+                     {op[3] for op in ops if op[0] == "add_sdo"} |
                      {0} | {b + op[1][1] for op in ops if op[0] == "add" for b in (0x80, 0x580, 0x600, 0x700)})
         probe = [["notify", i, [1, 2], 100000 + j] for j, i in enumerate(ids)]
         for cut in sorted({len(ops), len(ops) // 2, len(ops) // 4, 3 * len(ops) // 4}):
